@@ -36,6 +36,7 @@ class Gen:
         self.rng = rng
         self.high_chars = high_chars
         self.syms = {'i': [], 'f': [], 's': []}
+        self.sym_prob = 0.2
         self.sym_lines = []
 
     # ---------------------------------------------------------------- symbols
@@ -58,7 +59,11 @@ class Gen:
         return self.sym_lines
 
     def sym(self, t):
-        name, val = self.rng.choice(self.syms[t])
+        ent = self.rng.choice(self.syms[t])
+        name, val = ent[0], ent[1]
+        if len(ent) > 2:
+            # parameter of a user-defined function: spelled exactly as declared
+            return Node('sym', text=name, val=val, meta=ent[2])
         # "AS is by default not case-sensitive"
         r = self.rng.random()
         if r < 0.2:
@@ -151,7 +156,7 @@ class Gen:
 
     def leaf(self, t, allow_char=False):
         rng = self.rng
-        if self.syms[t] and rng.random() < 0.2:
+        if self.syms[t] and rng.random() < self.sym_prob:
             return self.sym(t)
         if t == 'i':
             if allow_char and rng.random() < 0.12:
@@ -867,3 +872,194 @@ def notation_case(rng, n=120):
         items.append(('n%d' % len(items), tok, exp, label))
     desc = {'cpu': cpu, 'relaxed': relaxed, 'intsyntax': mods, 'radix': radix}
     return lines, items, desc
+
+
+# ---------------------------------------------------------------------------
+# user-defined functions: values that travel through FUNCTION must come out bit-identical to
+# the same formula written inline
+
+PARAM_NAMES = ['pqa', 'pqb', 'pqc']     # no '.' or '_' ("stricter rules for macro parameter names");
+#                                         chosen so that they are not part of any built-in name, hex digit or symbol used
+
+
+def dense_float(rng):
+    """literal whose 53 mantissa bits are all significant (needs 17 decimal digits)"""
+    import struct
+    r = rng.random()
+    if r < 0.6:
+        e = rng.randrange(1023 - 40, 1023 + 40)
+    elif r < 0.8:
+        e = rng.randrange(1023 + 700, 1023 + 950)
+    else:
+        e = rng.randrange(1023 - 950, 1023 - 700)
+    bits = (e << 52) | rng.getrandbits(52) | 1
+    x = struct.unpack('>d', struct.pack('>Q', bits))[0]
+    t = repr(x)
+    if 'e' in t:
+        m, ex = t.split('e')
+        t = m + rng.choice('eE') + str(int(ex))
+    neg = rng.random() < 0.3
+    if neg:
+        t = '-' + t
+    if neg or '-' in t:
+        t = '(' + t + ')'          # sign / exponent sign next to an operator: always bracketed
+    return flit(t)
+
+
+def ufunc_arg(g, t, linear=False):
+    """actual argument of type t for a user-defined function"""
+    rng = g.rng
+    if t == 'f':
+        r = rng.random()
+        if linear and r < 0.3:
+            # results of libm: only into formulas that merely add/double them
+            name = rng.choice(['SIN', 'COS', 'EXP', 'LN', 'ATAN', 'SINH', 'LD', 'TANH'])
+            return g.call(name, [flit(rng.choice(['0.5', '2.0', '0.1', '1.5', '3.0', '0.75', '10.0']))])
+        if linear and r < 0.4:
+            return g.bin('^', flit(rng.choice(['2.0', '3.0', '10.0', '0.7'])), flit(rng.choice(['0.5', '0.3', '1.7', '(-0.5)'])))
+        if r < 0.55:
+            return dense_float(rng)
+        if r < 0.7:
+            a, b = dense_float(rng), dense_float(rng)
+            return g.bin(rng.choice(['+', '-', '*', '/']), a, b)
+        if r < 0.85:
+            txt = rng.choice([('+', '0.1', '0.2'), ('/', '1.0', '3.0'), ('/', '2.0', '3.0'), ('*', '0.1', '3.0'), ('/', '1.0', '7.0'),
+                              ('*', '0.0', '(-1.0)'), ('/', '(1.0E-280)', '3.0'), ('*', '1.0E280', '3.3'), ('/', '(-1.0)', '3.0'),
+                              ('-', '0.3', '0.1'), ('/', '22.0', '7.0'), ('*', '(1.0E-200)', '(1.0E-85)'), ('/', '0.0', '(-2.0)')])
+            return g.bin(txt[0], flit(txt[1]), flit(txt[2]))
+        if r < 0.92:
+            x = rng.choice([flit('2.0'), flit('3.0'), flit('0.1'), g.small_int(2, 99), dense_float(rng)])
+            return g.call('SQRT', [x if x.val[1] >= 0 else g.call('ABS', [x])])
+        return g.gen('f', 3)
+    if t == 'i':
+        r = rng.random()
+        if r < 0.45:
+            return g.int_lit(rng.choice([IMIN, IMIN + 1, IMAX, IMAX - 1, -1, 0, 1, 1 << 62, -(1 << 62), (1 << 63) - (1 << 10), 1 << 32,
+                                         -(1 << 32), (1 << 53) + 1, -(1 << 53) - 1, 0x7FFFFFFF, -0x80000000]))
+        if r < 0.7:
+            return g.int_lit(g.rand_int())
+        return g.gen('i', 3)
+    r = rng.random()
+    if r < 0.7:
+        return g.str_lit(12)
+    if r < 0.8:
+        return g._bytes_lit(rng.choice([b'', b'"', b"'", b'\\', b'a"b\'c\\d', b'\n', b'\t5', b'\r\n', b'\x1b[0m', b'\x07' + b'7', b'\xc8', b'\xff\x80',
+                                        b',', b'a,b', b'(', b')', b';x', b'\\"']))
+    return g.gen('s', 2)
+
+
+def _body_ok(body, pnames, nparams):
+    used = set()
+    for s in body.subtrees():
+        if s.kind == 'call' and s.op == 'VAL':
+            return False          # parameter names inside a quoted formula: textual insertion, not described
+        if s.kind == 'lit' and s.val[0] == 's' and any(p in s.text.lower() for p in pnames):
+            return False          # parameter name inside a string constant: not described either
+        if s.kind == 'sym' and isinstance(s.meta, tuple):
+            used.add(s.meta[1])
+    return len(used) == nparams and len(E.render(body, 'full')) <= 180 and not body.approx
+
+
+def _use_all(g, body, params, ptypes):
+    """let every parameter occur in the formula"""
+    used = {s.meta[1] for s in body.subtrees() if s.kind == 'sym' and isinstance(s.meta, tuple)}
+    for i, p in enumerate(params):
+        if i in used:
+            continue
+        bt, pt = body.val[0], ptypes[i]
+        if bt == 's' and pt == 's':
+            body = g.bin('+', body, p)
+        elif bt == 's':
+            body = g.bin('+', g.call('STRLEN', [body]), p) if pt == 'i' else g.bin('*', g.call('STRLEN', [body]), p)
+        elif pt == 's':
+            body = g.bin('+', body, g.call('STRLEN', [p]))
+        else:
+            body = g.bin(g.rng.choice(['+', '-', '*']), body, p)
+    return body
+
+
+def ufunc_suite(g, nfuncs=10, ncalls=260):
+    """returns (list of UFunc, list of (call node, tree of the same formula written inline))"""
+    rng = g.rng
+    funcs = []
+    saved = (g.syms, g.sym_prob)
+    for k in range(nfuncs):
+        name = 'uf%d' % k
+        style = rng.choice(['ident', 'linear', 'tree', 'tree', 'tree', 'nest', 'nest']) if funcs else 'ident'
+        n = 1 if style in ('ident', 'linear') else rng.choice([1, 2, 2, 3])
+        ptypes = [rng.choice('ifffs') for _ in range(n)]
+        pnames = PARAM_NAMES[:n]
+        f = None
+        for _ in range(40):
+            try:
+                samples = [ufunc_arg(g, t) for t in ptypes]
+                params = [Node('sym', text=pnames[i], val=samples[i].val, meta=('param', i)) for i in range(n)]
+                if style == 'ident':
+                    body = params[0]
+                elif style == 'linear':
+                    ptypes = ['f']
+                    p0 = Node('sym', text=pnames[0], val=('f', 1.5), meta=('param', 0))
+                    body = g.bin('+', p0, p0) if rng.random() < 0.5 else g.bin('*', p0, flit(rng.choice(['2.0', '0.5', '4.0'])))
+                else:
+                    g.syms = {t: [(pnames[i], samples[i].val, ('param', i)) for i in range(n) if ptypes[i] == t] for t in 'ifs'}
+                    g.sym_prob = 0.65
+                    if style == 'tree':
+                        body = g.gen(rng.choice(ptypes + ['i']), rng.choice([2, 3, 3, 4]))
+                    else:
+                        callee = rng.choice(funcs)
+                        args = []
+                        for t in (callee.ptypes or [rng.choice(ptypes)]):
+                            a = g.gen(t, 2)
+                            if a.val[0] != t:
+                                raise Silent('type')
+                            args.append(a)
+                        body = ucall(callee, args)
+                        if rng.random() < 0.5:
+                            t = body.val[0]
+                            other = g.gen(t, 2)
+                            body = g.bin('+' if t == 's' else rng.choice(['+', '*', '-']), body, other)
+                    g.syms, g.sym_prob = saved
+                    body = _use_all(g, body, params, ptypes)
+                if style in ('ident', 'linear') or _body_ok(body, pnames, n):
+                    f = E.UFunc(name, pnames, tuple(ptypes), body, linear=style in ('ident', 'linear'))
+                    if style == 'ident':
+                        f.ptypes = None          # identity: any type
+                    break
+            except (Silent, Undefined, IllTyped):
+                pass
+            finally:
+                g.syms, g.sym_prob = saved
+        if f is None:
+            p0 = Node('sym', text=pnames[0], val=('i', 0), meta=('param', 0))
+            f = E.UFunc(name, pnames[:1], None, p0, linear=True)
+        funcs.append(f)
+    calls = []
+    tries = 0
+    while len(calls) < ncalls and tries < ncalls * 8:
+        tries += 1
+        f = rng.choice(funcs)
+        try:
+            ptypes = f.ptypes or [rng.choice('iffffs')]
+            args = [ufunc_arg(g, t, linear=f.linear) for t in ptypes]
+            if any(a.val[0] != t for a, t in zip(args, ptypes)):
+                continue
+            node = ucall(f, args)
+            if rng.random() < 0.15:
+                # the call as operand of an ordinary operator
+                t = node.val[0]
+                if t == 's':
+                    node = g.bin('+', node, g.str_lit(4))
+                elif not node.approx:
+                    node = g.bin(rng.choice(['+', '*', '=', '<>']), node, args[0] if args[0].val[0] == t and not args[0].approx else g.leaf(t))
+            text = E.render(node, 'full')
+            inline = E.instantiate(node)
+            if len(text) <= 200 and len(E.render(inline, 'full')) <= 200:
+                calls.append((node, inline))
+        except (Silent, Undefined, IllTyped):
+            continue
+    return funcs, calls
+
+
+def ucall(f, args):
+    val, approx = E.evaluate(f.body, [(a.val, a.approx) for a in args])
+    return Node('ucall', f.name, args, val=val, approx=approx, meta=f)
